@@ -9,16 +9,17 @@
 // go/ssa form and discharges them with z3 / cvc5.
 //
 // Clause language (see /verif/DESIGN.md §3.3):
-//   //@ func <name>            start of a contract; (*T).m, T.m, f, f$1 (closure)
-//   //@ extern <name>          assumed contract of a dependency / interface method
-//   //@ props C04 C18          properties whose checks include this function
-//   //@ requires <e>           precondition (assumed in the body, obligation at call sites)
-//   //@ ensures <e>            postcondition (obligation in the body, assumed at call sites)
-//   //@ loop <k> invariant <e> inductive invariant of the k-th loop (source order)
-//   //@ modifies <targets>     frame; default: modifies nothing
-//   //@ ghost <name> <type>    universally quantified ghost input
-//   //@ safety                 generate no-panic obligations (bounds, nil, make sizes)
-//   //@ pred name(p t, ...) = <e>   specification macro
+//
+//	//@ func <name>            start of a contract; (*T).m, T.m, f, f$1 (closure)
+//	//@ extern <name>          assumed contract of a dependency / interface method
+//	//@ props C04 C18          properties whose checks include this function
+//	//@ requires <e>           precondition (assumed in the body, obligation at call sites)
+//	//@ ensures <e>            postcondition (obligation in the body, assumed at call sites)
+//	//@ loop <k> invariant <e> inductive invariant of the k-th loop (source order)
+//	//@ modifies <targets>     frame; default: modifies nothing
+//	//@ ghost <name> <type>    universally quantified ghost input
+//	//@ safety                 generate no-panic obligations (bounds, nil, make sizes)
+//	//@ pred name(p t, ...) = <e>   specification macro
 package bloomsearch
 
 // ---------------------------------------------------------------------------
